@@ -154,7 +154,8 @@ def auth_witness(ln):
             (ln['qop'] == 'none' or ln['qf'] == 'both')
         parse = 'ok' if ok else 'incomplete'
     return {'part': 'auth', 'api': ln['api'], 'enc': ln['enc'], 'sch': ln['sch'], 'form': ln['form'],
-            'user': ln['user'], 'sec': ln['sec'], 'parse': parse, 'ret': ln['ret'], 'login': ln['login']}
+            'user': ln['user'], 'sec': ln['sec'], 'realm': ln['realm'], 'hm': ln['hm'], 'parse': parse,
+            'ret': ln['ret'], 'login': ln['login']}
 
 
 # ---------------------------------------------------------------------------
